@@ -30,6 +30,14 @@ func genShortHistory(r *rand.Rand, rs int) []Op {
 	tag := uint32(0)
 	names := []string{"/a", "/b", "/d", "/d/x", "/missing/x"}
 	pick := func() string { return names[r.IntN(len(names))] }
+	// most calls should get past their precondition, so that their write path is enumerated
+	src := func() string {
+		if r.Float64() < 0.6 {
+			return []string{"/a", "/d"}[r.IntN(2)]
+		}
+		return pick()
+	}
+	fresh := 0
 	// optional setup so that calls have something to act on
 	if r.Float64() < 0.7 {
 		ops = append(ops, Op{K: "mkdir", P: "/d", M: 0o755})
@@ -55,17 +63,22 @@ func genShortHistory(r *rand.Rand, rs int) []Op {
 			tag++
 			ops = append(ops, Op{K: "writefile", P: pick(), D: &Data{Len: []int{0, 5, 2000}[r.IntN(3)], Kind: "rand", Tag: tag}})
 		case 3:
-			ops = append(ops, Op{K: "remove", P: pick()})
+			ops = append(ops, Op{K: "remove", P: src()})
 		case 4:
-			ops = append(ops, Op{K: "removeall", P: pick()})
+			ops = append(ops, Op{K: "removeall", P: src()})
 		case 5:
-			ops = append(ops, Op{K: "rename", P: pick(), Q: pick()})
+			if r.Float64() < 0.5 {
+				fresh++
+				ops = append(ops, Op{K: "rename", P: src(), Q: fmt.Sprintf("/r%d", fresh)})
+			} else {
+				ops = append(ops, Op{K: "rename", P: src(), Q: pick()})
+			}
 		case 6:
-			ops = append(ops, Op{K: "chmod", P: pick(), M: 0o600})
+			ops = append(ops, Op{K: "chmod", P: src(), M: 0o600})
 		case 7:
-			ops = append(ops, Op{K: "chown", P: pick(), U: 1000, G: 1000})
+			ops = append(ops, Op{K: "chown", P: src(), U: 1000, G: 1000})
 		case 8:
-			ops = append(ops, Op{K: "chtimes", P: pick(), T1: 1e9, T2: 1e9})
+			ops = append(ops, Op{K: "chtimes", P: src(), T1: 1e9, T2: 1e9})
 		case 9:
 			ops = append(ops, Op{K: "readfile", P: pick()})
 		case 10:
